@@ -26,10 +26,11 @@ CHECKS["C15"] = {
 
 CHECKS["C17"] = {
     "runs": [R("./ast/astutil", {"fn": r"^ZZ_C17_"})],
-    "expect_asserts": [r"C17\.walk\.no-error/.*", r"C17\.walk\.child-presented-once/.*", r"C17\.stop\.returns-callback-error/.*"],
+    "expect_asserts": [r"C17\.walk\.no-error/.*", r"C17\.walk\.child-presented-once/.*", r"C17\.stop\.returns-callback-error/.*", r"C17\.pairs\.descendant-presented-once/LetsExpr>MultiplyOperator"],
     "bounds": {"node kinds": "all struct types of package ast embedding StmtImpl/ExprImpl/OperatorImpl, derived by go/types at check time (enumerated by forking)",
                "list-valued child fields": "0..2 elements", "optional children": "present / nil",
-               "early stop": "callback fails at call j, j symbolic in 0..63 (solver-decided)"},
+               "early stop": "callback fails at call j, j symbolic in 0..63 (solver-decided)",
+               "parent x child kinds": "every ordered pair of node kinds (an operator in an expression position inside the OpExpr the parser builds): all three levels presented once, parents first"},
     "stubs": [],
     "assumptions": ["IfStmt.ElseIf holds *IfStmt and SwitchStmt.Cases holds *SwitchCaseStmt, as the grammar actions build them",
                     "completeness for whole programs follows by induction on the tree from the per-kind step lemma"],
@@ -236,7 +237,7 @@ CHECKS["C18"] = {
     "witness_cmd": "c18_binary.py",
     "runs": [R(".", {"fn": r"^ZZ_C18_"})],
     "expect_asserts": [r"C18\.exit-0-iff-library-succeeds/.*", r"C18\.exit-4-on-parse-or-run-error/.*", r"C18\.exit-2-when-file-unreadable/.*", r"C18\.one-diagnostic-line/.*", r"C18\.trailing-arguments-become-args/.*", r"C18\.no-extra-output-on-success/.*"],
-    "bounds": {"scripts": "13 (succeeding with and without output, using args / core builtins / a bundled package / printf; three parse errors; three run errors; empty)", "modes": "-e and file, 0..2 trailing arguments, unreadable file",
+    "bounds": {"scripts": "26 (succeeding with and without output, using args / core builtins / a bundled package / printf; parse errors; run errors of every error type; empty; the builtins that look at the script's own environment: defined on own names, functions, modules and from inside a function, load of a file that reads the loader's globals / defines for the loader / is missing)", "modes": "-e and file, 0..2 trailing arguments, unreadable file",
                "process level": "7 runs of the real built binary (exit status, stdout) as witnesses"},
     "stubs": ["io/ioutil.ReadFile: the harness's virtual files", "fmt.Print*: recorded standard output", "os.Args / flag: a fresh FlagSet per run"],
     "assumptions": ["the function-level verdict is the process's verdict: main() only passes the return code of runNonInteractive to os.Exit"],
